@@ -183,6 +183,62 @@ def run(ctx):
                         if not ok:
                             r2.violate("C09|R2|%s" % n, "%s selects 204 No Content on a path that is not restricted to OPTIONS" % n, s["span"]["file"], s["span"]["line"], n)
 
+    # R8: who may branch on HEAD. HEAD's status and headers equal GET's because nothing before the serialiser knows the difference:
+    # the matchers accept it, the controllers compute the same content ranges, and the serialiser alone drops the body.
+    r8 = chk.rule("R8-only-matchers-and-the-serialiser-test-for-HEAD", "the request method is compared with HEAD only in controller matchers (bool functions) and in the response serialiser; a HEAD-specific branch in content-producing code makes HEAD's headers (Content-Length ..) differ from GET's", floor=5)
+    from ..inline import is_private_helper
+    for n in sorted(seen):
+        fn0 = F.fns.get(n)
+        if fn0 is None or fn0.crate != "rws" or fn0.kind == "Promoted" or is_private_helper(F, n):
+            continue
+        fn = ctx.inl(fn0)
+        du = du_of(fn)
+        heads = []
+        for b in fn.blocks:
+            if b.get("cleanup"):
+                continue
+            t = b["term"]
+            if t["k"] == "call" and _method_eq(du.val_call(t, 0, b["id"])) == "HEAD":
+                heads.append(t["span"]["line"])
+        if not heads:
+            continue
+        is_matcher = fn0.ret == "bool"
+        is_serialiser = fn0.ret == "std::vec::Vec<u8>" and any(callee_name(t) == "response::Response::generate_body" for _, t in fn.calls())
+        ok = is_matcher or is_serialiser
+        r8.instance({"fn": n, "role": "matcher" if is_matcher else ("serialiser" if is_serialiser else "other"), "lines": heads[:3]}, ok)
+        if not ok:
+            r8.violate("C09|R8|%s" % n, "%s compares the request method with HEAD (line %d) although it is neither a matcher nor the serialiser: what it computes for HEAD can differ from what it computes for GET" % (n, heads[0]),
+                       fn0.file, heads[0], n)
+
+    # R9: a preflight grant depends on its own request header only (plus Origin and the method): otherwise a real preflight that
+    # carries Access-Control-Request-Method but no Access-Control-Request-Headers loses Allow-Methods / Max-Age and fails
+    r9 = chk.rule("R9-preflight-grants-are-independent", "the construction of each Access-Control-* response header is conditioned on the presence of no request header other than Origin and the one it answers", floor=6)
+    from .parse_common import tests_dominating, deep_strings
+    from .c05 import header_aggregates, const_str
+    OWN = {"Access-Control-Allow-Methods": {"Access-Control-Request-Method"}, "Access-Control-Allow-Headers": {"Access-Control-Request-Headers"},
+           "Access-Control-Expose-Headers": {"Access-Control-Request-Headers"}}
+    for n in sorted(seen):
+        fn0 = F.fns.get(n)
+        if fn0 is None or fn0.crate != "rws" or fn0.kind == "Promoted" or is_private_helper(F, n):
+            continue
+        fn = ctx.inl(fn0)
+        aggs = [(bid, st, const_str(nv)) for bid, st, nv, vv in header_aggregates(fn)]
+        aggs = [a for a in aggs if (a[2] or "").startswith("Access-Control-")]
+        if not aggs:
+            continue
+        du = du_of(fn)
+        for bid, st, hn in aggs:
+            asked = set()
+            for c, tr, v, line in tests_dominating(fn, bid):
+                ds = {x for x in deep_strings(du, v) if isinstance(x, str)}
+                if any("get_header" in x for x in ds):
+                    asked |= {x for x in ds if x == "Origin" or x.startswith("Access-Control-Request-")}
+            extra = asked - {"Origin"} - OWN.get(hn, set())
+            ok = not extra
+            r9.instance({"fn": n, "header": hn, "request_headers_it_depends_on": sorted(asked)}, ok)
+            if not ok:
+                r9.violate("C09|R9|%s|%s" % (n, hn), "%s builds %s only when the request also carries %s: a preflight without that header loses the grant" % (n, hn, ", ".join(sorted(extra))), st["span"]["file"], st["span"]["line"], n)
+
     # R3: serialiser clauses shared with C05 (body suppressed for HEAD/OPTIONS; Content-Length from the content range, i.e. independent of the method)
     serialiser_clauses(ctx, chk, "C09", seen)
 
